@@ -74,6 +74,28 @@ def local_case(ch, r):
     else:
         later = False
         kw = {k: v for k, v in (('weight', w), ('depends_on', d), ('exclusive', e)) if v is not None}
+        if valid and ch.chance(64):
+            # the same signal several times in a row, and a DATA payload that happens to end with the very bytes of
+            # the frame, all read in one data_to_send() at the end: every accepted call is one PRIORITY frame
+            first = s.call('prioritize', sid, **kw)
+            raw_frame = bytes(first.out)
+            c = s.c
+            n_calls = ch.int(2, 4)
+            try:
+                if ch.bool() and first.ok:
+                    c.send_headers(101 if sid != 101 else 103, list(REQ))
+                    c.send_data(101 if sid != 101 else 103, b'payload' + raw_frame)
+                for _ in range(n_calls):
+                    c.prioritize(sid, **kw)
+                out = c.data_to_send()
+            except Exception as exc:   # noqa: BLE001
+                r.violate('C23:valid-priority-refused:%s' % type(exc).__name__, 'repeated prioritize: %r' % (kw,))
+                return
+            got_n = sum(1 for f in wire.parse_all(out)[0] if f.type == wire.PRIORITY and f.stream_id == sid)
+            r.step('prioritize x%d without reading the output in between' % n_calls, sid, kw, 'frames', got_n)
+            if first.ok and got_n != n_calls:
+                r.violate('C23:repeated-prioritize-frames-missing', '%d calls, %d PRIORITY frames' % (n_calls, got_n))
+            r.labels.add('repeated-prioritize-undrained')
         o = s.call('prioritize', sid, **kw)
     r.step('local', 'client' if client else 'server', 'send_headers' if via_headers else 'prioritize', sid, kw,
            o.brief())
